@@ -116,7 +116,7 @@ type sim struct {
 	modelRev    map[uint64]uint64 // id -> revision of the latest user write
 	r2done      map[uint64]uint64 // id -> payload for which the second reconciler set Done
 	extra       []*extraRec       // further real reconcilers
-	waiters     *sync.WaitGroup   // its own heap object: under synctest (Go 1.25.0) a WaitGroup inside a larger object was reported as used from two bubbles after the memory was reused
+	waiters     *waiterSet // not a sync.WaitGroup: synctest (Go 1.25.0) remembers the bubble of a WaitGroup by address and twice reported one as used from two bubbles after its memory had been reused by a later run
 	spinAtStore atomic.Bool       // the next commit of the main goroutine triggers a reconciler round between its root store and its notifications
 	logMu       sync.Mutex
 	gateMu      sync.Mutex
@@ -925,9 +925,9 @@ func (s *sim) convergenceCheck(what string) {
 // still the current version of its key must have been attempted, and a zero watermark is judged against the round log.
 func (s *sim) startWaiter(rev uint64) {
 	cfg := s.cfg
-	s.waiters.Add(1)
+	waiterDone := s.waiters.add()
 	go func() {
-		defer s.waiters.Done()
+		defer close(waiterDone)
 		ctx, cancel := context.WithTimeout(context.Background(), 30*time.Second)
 		defer cancel()
 		got, wm, err := s.rec.WaitUntilReconciled(ctx, rev)
@@ -1126,7 +1126,7 @@ func Run(t *testing.T, r *vkit.Run, idx int, cfg Config) {
 	defer stop()
 	synctest.Test(t, func(t *testing.T) {
 		s := &sim{r: r, idx: idx, rng: r.Rand(idx), opRng: r.Rand(idx, 7), cfg: cfg, fp: vkit.NewHash(), target: map[uint64]uint64{}, model: map[uint64]uint64{},
-			modelRev: map[uint64]uint64{}, r2done: map[uint64]uint64{}, t0: time.Now(), inflight: map[uint64]bool{}, unset: map[uint64]bool{}, final: map[uint64]reconciler.Status{}, everSeen: map[uint64]bool{}, waiters: new(sync.WaitGroup)}
+			modelRev: map[uint64]uint64{}, r2done: map[uint64]uint64{}, t0: time.Now(), inflight: map[uint64]bool{}, unset: map[uint64]bool{}, final: map[uint64]reconciler.Status{}, everSeen: map[uint64]bool{}, waiters: &waiterSet{}}
 		if cfg.HoldLock {
 			// installed before anything of this run can request a table lock
 			s.mainGID = goid()
@@ -1318,7 +1318,7 @@ func Run(t *testing.T, r *vkit.Run, idx int, cfg Config) {
 		if !s.failed.Load() && !cfg.Refresh {
 			s.checkWatermark("final")
 		}
-		s.waiters.Wait()
+		s.waiters.wait()
 		if !s.failed.Load() {
 			s.pacingChecks()
 		}
@@ -1394,3 +1394,32 @@ func RandomConfig(rng *rand.Rand, pacing bool) Config {
 }
 
 var _ = sort.Ints
+
+// waiterSet is a wait group made of one channel per goroutine (channels created inside a bubble belong to it by construction,
+// and a receive on one is durably blocking, so virtual time keeps moving while the main goroutine waits).
+type waiterSet struct {
+	mu   sync.Mutex
+	done []chan struct{}
+}
+
+func (w *waiterSet) add() chan struct{} {
+	c := make(chan struct{})
+	w.mu.Lock()
+	w.done = append(w.done, c)
+	w.mu.Unlock()
+	return c
+}
+
+func (w *waiterSet) wait() {
+	for {
+		w.mu.Lock()
+		if len(w.done) == 0 {
+			w.mu.Unlock()
+			return
+		}
+		c := w.done[0]
+		w.done = w.done[1:]
+		w.mu.Unlock()
+		<-c
+	}
+}
